@@ -60,7 +60,17 @@ def gen_events(r, n, fmt):
         base = datetime.datetime(y, mo, d, hh, mm, ss, tzinfo=UTC) + datetime.timedelta(milliseconds=frac_ms)
         lat = float(numpy.round(r.uniform(-89.9, 89.9), int(r.integers(1, 5))))
         lon = float(numpy.round(r.uniform(-179.9, 179.9), int(r.integers(1, 5))))
-        ev.append({"t": base, "lat": lat, "lon": lon, "depth": float(numpy.round(r.uniform(0, 650), 1)), "mag": float(numpy.round(r.uniform(1, 9), 2)),
+        dep = float(numpy.round(r.uniform(0, 650), 1))
+        z = r.uniform()
+        if z < 0.04:
+            base = datetime.datetime(1970, 1, 1, tzinfo=UTC)          # the epoch itself (0 ms): zero-valued fields are legitimate values
+        elif z < 0.08:
+            lat = 0.0
+        elif z < 0.12:
+            lon = 0.0
+        elif z < 0.16:
+            dep = 0.0
+        ev.append({"t": base, "lat": lat, "lon": lon, "depth": dep, "mag": float(numpy.round(r.uniform(1, 9), 2)),
                    "roll": int(r.integers(0, 5)) == 0})
     return ev
 
